@@ -55,7 +55,8 @@ def dependency_contracts(repo, st):
 
 def k2_eq_hash(prop, repo, verif, workdir, tier, seed, log):
     kd = os.path.join(verif, "kani")
-    mods = {"src/raw_source.rs": [kd + "/eq_hash_raw.rs"], "src/original_source.rs": [kd + "/eq_hash_original.rs"], "src/replace_source.rs": [kd + "/eq_hash_replace.rs"]}
+    mods = {"src/raw_source.rs": [kd + "/eq_hash_raw.rs"], "src/original_source.rs": [kd + "/eq_hash_original.rs"], "src/replace_source.rs": [kd + "/eq_hash_replace.rs"],
+            "src/source_map_source.rs": [kd + "/eq_hash_sms.rs"]}
     hs = [("raw_string_eq_hash_clone", "RawStringSource.eq_hash_clone=function_of_value"),
           ("raw_buffer_eq_hash_clone", "RawBufferSource.eq_hash_clone=function_of_value"),
           ("raw_source_eq_hash_clone_buf_buf_same", "RawSource.eq_hash_clone=function_of_value(Buffer,Buffer equal)"),
@@ -63,6 +64,7 @@ def k2_eq_hash(prop, repo, verif, workdir, tier, seed, log):
           ("raw_source_eq_hash_clone_str_static", "RawSource.eq_hash_clone=function_of_value(String owned,static)"),
           ("raw_source_eq_hash_clone_buf_str", "RawSource.eq_hash_clone=function_of_value(Buffer,String)"),
           ("original_eq_hash_clone", "OriginalSource.eq_hash_clone=function_of_value_and_name"),
+          ("source_map_source_eq_hash_clone", "SourceMapSource.eq_hash_clone=function_of_fields"),
           ("replace_eq_ignores_cache", "ReplaceSource.eq_clone=function_of_replacements(any cache state)"),
           ("replace_hash_cold_cache_n1", "ReplaceSource.hash=function_of_replacements(cold cache, n=1)"),
           ("clone_preserves_inv_n2", "ReplaceSource.clone.preserves_lazy_sort_invariant(n=2)")]
